@@ -103,6 +103,9 @@ PATTERNS = ["*.py", "**/*.py", "**.py", "src/**", "src/*.py", "tests/**", "*/a.p
 
 def gen_pats(rng, paths, n, with_lines):
     out = []
+    if with_lines and n and rng.random() < 0.2:
+        # a list made of `path:line` patterns only: it names no file-level pattern at all (and is still a user-given list)
+        return [f"{rng.choice(PATTERNS[:8] + paths[:6])}:{rng.randint(1, 9)}" for _ in range(n)]
     for _ in range(n):
         p = rng.choice(PATTERNS + paths[:6])
         if with_lines and rng.random() < 0.35:
